@@ -15,7 +15,7 @@ let dgram_bytes (b : z list) : string =
 
 let show_out (o : rt_out) : string option =
   match o with
-  | RoTx (t, _, s, b) -> Some (Printf.sprintf "tx:%s:%s:%s" (zs t) (zs s) (dgram_bytes b))
+  | RoTx (t, _, s, b, _, _) -> Some (Printf.sprintf "tx:%s:%s:%s" (zs t) (zs s) (dgram_bytes b))
   | RoSent m -> Some ("s:" ^ zs m)
   | RoNack (t, _, s, r, m, _, _) -> Some (Printf.sprintf "nk:%s:%s:%s:%s:1" (zs t) (zs s) (zs r) (zs m))
   | RoNackNoPdu (t, s, r, m) -> Some (Printf.sprintf "nk:%s:%s:%s:%s:0" (zs t) (zs s) (zs r) (zs m))
@@ -55,10 +55,16 @@ let c06 toks =
           | Some s -> outs := (string_of_int !evi ^ "." ^ s) :: !outs
           | None -> ()) o in
       let sess s = z_of_int (int_of_string s mod ns) in
+      let dead = Array.make ns false in
+      let is_dead s = dead.(int_of_string s mod ns) in
       let rec go toks =
         incr evi;
         match toks with
         | [] -> ()
+        | "S" :: s :: _ :: _ :: _ :: _ :: _ :: tl when is_dead s -> go tl
+        | ("K" | "R") :: s :: _ :: tl when is_dead s -> go tl
+        | "P" :: s :: _ :: _ :: tl when is_dead s -> go tl
+        | "N" :: s :: _ :: _ :: _ :: tl when is_dead s -> go tl
         | "A" :: dt :: tl -> step (RtAdvance (zi dt)); go tl
         | "W" :: k :: tl ->
             (if !last_tick >= 0 then begin
@@ -77,6 +83,13 @@ let c06 toks =
         | "K" :: s :: mid :: tl -> step (RtAck (sess s, zi mid)); go tl
         | "P" :: s :: mid :: _tok :: tl -> step (RtAck (sess s, zi mid)); go tl
         | "R" :: s :: mid :: tl -> step (RtRst (sess s, zi mid)); go tl
+        | "N" :: s :: mid :: _code :: tok :: tl -> step (RtNon (sess s, zi mid, bytes_of_tok tok)); go tl
+        | "D" :: s :: reason :: tl ->
+            let si = int_of_string s mod ns in
+            if not dead.(si) then begin
+              step (RtDisconnect (z_of_int si, zi reason)); dead.(si) <- true
+            end;
+            go tl
         | "Q" :: tl -> step RtDump; go tl
         | _ -> failwith "c06 event" in
       go evtoks;
